@@ -1,8 +1,8 @@
 """C14 — work partitioning tiles the function list; fitting stages complete on any ranks."""
 import os, types, itertools
-import common, extract, mpirun, libgen, fitlib
+import common, extract, mpirun, libgen, fitlib, stages_corr
 
-LEAN_MODULE = ["ESRVerif.Props.C14", "ESRVerif.Props.C14b"]
+LEAN_MODULE = ["ESRVerif.Props.C14", "ESRVerif.Props.C14b", "ESRVerif.Props.C14c"]
 LEVEL = "proof"
 RULE = ("(N,P,r) triples enumerated exhaustively up to the tier bound for split_idx and get_functions; "
         "non-trivial = P>=2 and N>=1; distinct by (function,N,P)")
@@ -35,7 +35,7 @@ FALLBACK = {"DirProto": "dynamic tie corr:dir-protocol: the os.path.isdir/exists
                         "the operations the committed table lists (read back through the model executable), incl. rank-0-only and barrier-after; the traced run "
                         "is made under the forced all-test-before-any-creates interleaving and must complete on every rank (oracle), plus the forced constructor start-up"}
 ASSUMPTIONS = ["atomic mkdir, no partial writes", "ranks are OS processes under the stand-in hub, not a real MPI progress engine"]
-MODELLED = ["utils.py:split_idx", "test_all.py:get_functions", "likelihood.py:Likelihood.__init__"]
+MODELLED = ["utils.py:split_idx", "test_all.py:get_functions", "likelihood.py:Likelihood.__init__", "test_all.py:main", "test_all_Fisher.py:main", "test_all_Fisher.py:load_loglike"]
 
 
 def _corr_split(ctx, Nmax, Pmax):
@@ -362,6 +362,41 @@ def _pipeline_rows(ctx, Ps, comp):
     return n
 
 
+def _tiny_pipelines(ctx, Ps):
+    """libraries with ONE function (one-row stage files: F16) and with one unique of two functions: all four stages, 1 and several ranks"""
+    import numpy as np, json
+    n = 0
+    for tag, basis, comp in (("u1", [["x"], [ctx.rng.choice(["inv", "exp"])], ["+"]], 1), ("a1", [["a"], [], [ctx.rng.choice(["-", "/"])]], 3)):
+        lib = libgen.generate(ctx, "verif_c14%s" % tag, [comp], P=1, basis=basis, copy="c14_tiny_%s" % tag)
+        if not lib["ok"]:
+            ctx.disagree("pipeline:generation", "could not generate the single-function library %r: %s" % (basis, lib["res"]["error"]))
+            continue
+        nuniq = len(libgen.read_lines(libgen.libfile(lib["dir"], comp, "unique_equations")))
+        nall = len(libgen.read_lines(libgen.libfile(lib["dir"], comp, "all_equations")))
+        dd = os.path.join(ctx.tmp, "c14_tiny_data_%s" % tag); os.makedirs(dd, exist_ok=True)
+        x = np.linspace(0.5, 3, 25); s = np.full(25, 0.2); y = 1.5 * x + 0.7
+        fitlib.write_data(os.path.join(dd, "d.txt"), x, y, s)
+        for P in Ps:
+            r = fitlib.run_pipeline(ctx, lib["copy"], "verif_c14%s" % tag, comp, dd, "d.txt", "tiny%s%d" % (tag, P), P=P, seed=ctx.seed, timeout=300,
+                                    env_extra={"ESR_VERIF_BASIS": json.dumps(basis)})
+            n += 1
+            ctx.case(("tiny-pipeline", tag, P), nontrivial=True)
+            rp = dict(kind="tiny", P=P)
+            if not r["ok"]:
+                ctx.fail("fitting-stage-incomplete:single-function:P=%d" % P, "fitting stages on a library with %d unique / %d functions (basis %r, n=%d) on %d ranks do not complete "
+                         "on every rank: %s %s %s" % (nuniq, nall, basis, comp, P, r["res"]["error"], r["res"]["exit_codes"], fitlib.traceback_tail(r)), rp)
+                continue
+            for name, want in (("negloglike_comp%d.dat" % comp, nuniq), ("codelen_comp%d_deriv.dat" % comp, nuniq), ("derivs_comp%d.dat" % comp, nuniq),
+                               ("codelen_matches_comp%d.dat" % comp, nall)):
+                a = np.atleast_2d(np.loadtxt(os.path.join(r["out_dir"], name)))
+                if a.shape[0] != want:
+                    ctx.fail("stage-rows:%s:single-function:P=%d" % (name.split("_comp")[0], P), "%s written by %d ranks has %d rows for %d functions" % (name, P, a.shape[0], want), rp)
+            fin = [l for l in open(os.path.join(r["out_dir"], "final_%d.dat" % comp)).read().splitlines() if l.strip()]
+            if len(fin) > nuniq:
+                ctx.fail("stage-rows:final:single-function:P=%d" % P, "final_%d.dat has %d rows for %d unique functions" % (comp, len(fin), nuniq), rp)
+    return n
+
+
 def run(ctx):
     drift = extract.drifted(ctx.proof.get("extract", {}), MODELLED)
     deep = (not ctx.quick) or bool(drift)
@@ -374,11 +409,15 @@ def run(ctx):
     # numbered >= 10 own functions, so the ORDER in which the per-rank files are concatenated is observable
     n4 = _pipeline_rows(ctx, [1, 2, 3, 5, 16, 29] if deep else [1, 3, 17], 3)
     n4 += _pipeline_rows(ctx, [12, 13, 23] if deep else [13], 4)
-    ctx.extra["runs"] = dict(constructor_startups=n3, pipelines=n4, dir_traces=n5)
-    ctx.extra["corr_obligations"] = 3
-    ctx.extra["corr_discharged"] = int(b1 == 0) + int(b2 == 0) + int(b5 == 0)
+    n4 += _tiny_pipelines(ctx, [1, 3])
+    # the loops of test_all.main / test_all_Fisher.main with scripted per-function routines (returns, NameError, other exceptions,
+    # malformed results, nan/inf likelihoods), N from 1 to beyond the rank count, against Model/Stages.lean + row-alignment oracle
+    n6, b6 = stages_corr.run(ctx, 120 if deep else 36, [1, 2, 3, 5, 8, 13] if deep else [1, 3, 7], 40 if deep else 12)
+    ctx.extra["runs"] = dict(constructor_startups=n3, pipelines=n4, dir_traces=n5, scripted_stage_jobs=n6)
+    ctx.extra["corr_obligations"] = 4
+    ctx.extra["corr_discharged"] = int(b1 == 0) + int(b2 == 0) + int(b5 == 0) + int(b6 == 0)
     ctx.extra["correspondence"] = dict(split_idx_ops=n1, split_idx_mismatch=b1, get_functions_ops=n2, get_functions_mismatch=b2,
-                                       dir_protocol_runs=n5, dir_protocol_mismatch=b5)
+                                       dir_protocol_runs=n5, dir_protocol_mismatch=b5, stage_driver_ops=n6, stage_driver_mismatch=b6)
     ctx.extra["exhaustive"] = True
 
 
@@ -406,6 +445,14 @@ def replay(ctx, data):
         for f in c2.failures:
             print(f["what"])
         return not c2.failures
+    if rp["kind"] == "tiny":
+        c2 = common.Ctx("C14", "quick", 0); c2.tmp = ctx.tmp; c2.stage = ctx.stage; c2.rng = ctx.rng
+        _tiny_pipelines(c2, [rp["P"]])
+        for f in c2.failures:
+            print(f["what"])
+        return not c2.failures
+    if rp["kind"] == "stage":
+        return stages_corr.replay(ctx, rp)
     if rp["kind"] == "dirtrace":
         r, traces = _trace_run(ctx, rp["P"], rp["mode"], rp["force"], tag="_replay")
         bad = (not r["ok"]) or any(t is None or t["error"] or t["missing"] for t in traces)
